@@ -28,7 +28,7 @@ type C20Case struct {
 
 func genC20(t *rapid.T) C20Case {
 	c := C20Case{M: h.GenMode(t, "zmode")}
-	c.Kind = rapid.SampledFrom([]string{"bits", "bits", "bits", "own", "ownext", "mantexp", "setmantexp", "setmantexp"}).Draw(t, "kind")
+	c.Kind = rapid.SampledFrom([]string{"bits", "bits", "bits", "own", "ownext", "ownsub", "mantexp", "setmantexp", "setmantexp"}).Draw(t, "kind")
 	maxW := 60
 	if h.Thorough() {
 		maxW = 1000
@@ -176,6 +176,17 @@ func genC20(t *rapid.T) C20Case {
 			c.W[k-1-i] = ws[i]
 		}
 		c.Exp = int64(rapid.IntRange(-200, 200).Draw(t, "exp"))
+	case "ownsub":
+		// a part of the receiver's own BitsExp slice - its more significant words m[k:], its less significant ones
+		// m[:j], or a stretch in the middle - handed back to SetBitsExp: the argument then starts inside the
+		// receiver's buffer, and whatever the library moves overlaps with it
+		c.X = h.GenFinite(t, "x", 400)
+		c.X.Hist = rapid.SampledFrom([]string{"", "pad", "hugecap", "cap"}).Draw(t, "xh")
+		if c.X.P > uint(len(c.X.D))+200 {
+			c.X.P = uint(len(c.X.D)) + uint(rapid.IntRange(0, 200).Draw(t, "xp"))
+		}
+		c.W = []uint64{uint64(rapid.IntRange(0, 12).Draw(t, "lo")), uint64(rapid.IntRange(0, 12).Draw(t, "hi"))} // words cut off at the low / high end
+		c.Exp = h.GenExp(t, "exp")
 	case "mantexp":
 		c.X = h.GenAny(t, "x", 2000)
 		c.Same = rapid.IntRange(0, 3).Draw(t, "same") == 0
@@ -368,6 +379,49 @@ func checkC20(c C20Case, o *h.Obs) *h.Fail {
 		} else if got.Form != model.Zero {
 			return h.Failf("own", "SetBitsExp of an empty own slice on %v = %v", xv, got)
 		}
+	case "ownsub":
+		x := c.X.Build()
+		mant, _ := x.BitsExp()
+		lo, hi := int(c.W[0]), int(c.W[1])
+		if lo+hi >= len(mant) {
+			lo, hi = len(mant)-1, 0
+			if lo < 0 {
+				o.Label("ownsub:empty")
+				return nil
+			}
+		}
+		sub := mant[lo : len(mant)-hi]
+		u := make([]uint64, len(sub))
+		for i, v := range sub {
+			u[i] = uint64(v)
+		}
+		all := h.WordsToDigits(u)
+		digits := strings.TrimLeft(all, "0")
+		x.SetBitsExp(sub, c.Exp)
+		got := h.Read(x)
+		if got.Malformed != "" {
+			return h.Failf("malformed", "part [%d:%d] of x's own %d-word slice: %v", lo, len(mant)-hi, len(mant), got)
+		}
+		if lo > 0 {
+			o.Label("ownsub:starts-inside-the-buffer")
+			o.NonTrivial()
+		}
+		if strings.TrimRight(digits, "0") == "" {
+			if got.Form != model.Zero {
+				return h.Failf("ownsub", "all-zero part of the own slice: %v", got)
+			}
+			return nil
+		}
+		exact := model.MkFinite(false, strings.TrimRight(digits, "0"), clampModelExp(c.Exp)-int64(len(all)-len(digits)))
+		prec := uint64(c.X.P)
+		if c.X.P == 0 {
+			return nil
+		}
+		want, acc := model.Round(model.X{Val: exact}, prec, model.Mode(c.X.M))
+		if !got.Val().Equal(want) || model.Acc(got.Acc) != acc {
+			return h.Failf("ownsub", "x = %v (%d words): SetBitsExp(own slice [%d:%d], %d): got %v (%v), want %v (%v)", c.X.Val(), len(mant), lo, len(mant)-hi, c.Exp, got.Val(), model.Acc(got.Acc), want, acc)
+		}
+		return nil
 	case "ownext":
 		x := c.X.Build()
 		mant, _ := x.BitsExp()
@@ -518,7 +572,7 @@ func checkC20(c C20Case, o *h.Obs) *h.Fail {
 	return nil
 }
 
-const ruleC20 = "rapid-generated cases of four kinds. (bits) little-endian word slices of length 0..60 (quick) / 0..1000 (thorough), words < 10^19 from the pattern set, with leading zero words, low zero words, all-zero, unnormalised top word; exponents from every class incl. MaxExp/MinExp +- 40 (+ slice length), +-2^63 and neighbours, +-2^62, uniform int64; receiver precision 0, smaller than the slice's digits, or ample; six modes; receivers with previous contents. Oracle: +0.mant x 10^exp rounded once to the receiver's precision with accuracy, zero for an all-zero slice, range rule; BitsExp read back denotes the value. (own) x.SetBitsExp(x.BitsExp()) with a new exponent, in one case of three with the top word of the slice divided in place first (same slice header, leading zero digits). (ownext) the receiver's own slice extended within its capacity by 1..6 chosen more significant words and set back. (mantexp) all Decimals: x == mant x 10^exp with 0.1 <= |mant| < 1, attributes copied, specials, mant == x, SetMantExp(mant, exp) restores value and attributes. (setmantexp) any finite/special mant, offsets landing 0-3 steps inside/outside [MinExp, MaxExp], up to +-2^34, the four corners (mantissa exponent MinExp or MaxExp with an offset of +-(2^32-1) +- 2), and over the whole int64 range with its ends (MaxInt64, MinInt64, +-2^62, ...): +-0 / +-Inf exactly when the exponent sum leaves the range, accuracy, attributes of mant. Non-trivial = slice needing normalisation or rounding, exponent within 40 of a range end or beyond, SetMantExp landing within 3 of a range end."
+const ruleC20 = "rapid-generated cases of four kinds. (bits) little-endian word slices of length 0..60 (quick) / 0..1000 (thorough), words < 10^19 from the pattern set, with leading zero words, low zero words, all-zero, unnormalised top word; exponents from every class incl. MaxExp/MinExp +- 40 (+ slice length), +-2^63 and neighbours, +-2^62, uniform int64; receiver precision 0, smaller than the slice's digits, or ample; six modes; receivers with previous contents. Oracle: +0.mant x 10^exp rounded once to the receiver's precision with accuracy, zero for an all-zero slice, range rule; BitsExp read back denotes the value. (own) x.SetBitsExp(x.BitsExp()) with a new exponent, in one case of three with the top word of the slice divided in place first (same slice header, leading zero digits). (ownext) the receiver's own slice extended within its capacity by 1..6 chosen more significant words and set back. (ownsub) a part of the receiver's own slice - m[k:], m[:j] or a stretch in the middle - set back with any exponent. (mantexp) all Decimals: x == mant x 10^exp with 0.1 <= |mant| < 1, attributes copied, specials, mant == x, SetMantExp(mant, exp) restores value and attributes. (setmantexp) any finite/special mant, offsets landing 0-3 steps inside/outside [MinExp, MaxExp], up to +-2^34, the four corners (mantissa exponent MinExp or MaxExp with an offset of +-(2^32-1) +- 2), and over the whole int64 range with its ends (MaxInt64, MinInt64, +-2^62, ...): +-0 / +-Inf exactly when the exponent sum leaves the range, accuracy, attributes of mant. Non-trivial = slice needing normalisation or rounding, exponent within 40 of a range end or beyond, SetMantExp landing within 3 of a range end."
 
 var propC20 = &h.Prop[C20Case]{ID: "C20", Rule: ruleC20, Gen: genC20, Check: checkC20, Matchers: map[string]func(C20Case) bool{}}
 
